@@ -523,8 +523,7 @@ class Overlap(Contract):
 @register
 class GenTermOrders(Contract):
     key = "adcgen.func:gen_term_orders"
-    props = []
-    assumed = True
+    props = ["C02", "C03", "C04", "C05"]
     note = "for term_length 2: [(m, n-m), (m+1, n-m-1), ..., (n-m, m)] (itertools.product order); otherwise an enumeration of the compositions of n into L parts >= m (bounded check gen_term_orders.compositions)"
 
     def apply(self, vc, a):
@@ -536,45 +535,163 @@ class GenTermOrders(Contract):
             return G.term_orders2(vc, n, m)
         return Struct("Compositions", n=term(n), L=term(L), m=term(m))
 
-    # ---- verification of the body: models of range / product / comprehension
+    # ---- verification of the body (term_length 0..4, order and min_order symbolic) ---------
+    LENGTHS = [0, 1, 2, 3, 4]
+    split_first_choice = len(LENGTHS)
+
     def setup(self, vc):
-        vals = {}
-        for nm in ("order", "term_length", "min_order"):
-            vals[nm] = Sym(vc.fresh_int(nm))
-        return vals
+        L = self.LENGTHS[vc.choose(len(self.LENGTHS), "term_length")]
+        C.EXTERNALS["itertools.product"] = model_product
+        C.SYMBOLIC_ITERABLES.add("ProductV")
+        C.STRUCT_SYMITER["ProductV"] = _product_symiter
+        return {"order": Sym(vc.fresh_int("order")), "term_length": L,
+                "min_order": Sym(vc.fresh_int("min_order"))}
 
     def raises(self, vc, a):
-        return [("Inputerror", zor(*[a[k].t < 0 for k in ("order", "term_length", "min_order")]))]
+        if a.get("_callsite"):
+            return []
+        return [("Inputerror", zor(a["order"].t < 0, a["min_order"].t < 0))]
 
     def post(self, vc, a, result):
-        n, L, m = (a[k].t for k in ("order", "term_length", "min_order"))
-        if not (isinstance(result, Struct) and result.cls == "FilteredProduct"):
-            return [("result-is-the-filtered-product", False)]
-        f = result.f
-        c = vc.fresh("comb", z3.ArraySort(z3.IntSort(), z3.IntSort()))
-        keep = f["pred"](c)
-        return [
-            ("parts-range-over-min_order..order", zand(f["lo"] == m, f["hi"] == n + 1)),
-            ("tuples-have-term_length-parts", f["repeat"] == L),
-            ("keeps-exactly-the-tuples-that-sum-to-order", keep == (TUPLE_SUM(c, L) == n)),
-        ]
+        from pyvc.builtins import CompVal, make_symiter
+        from pyvc.interp import Frame
+        n, L, m = a["order"].t, a["term_length"], a["min_order"].t
+        if not isinstance(result, CompVal) or not (isinstance(result.iterable, Struct)
+                                                   and result.iterable.cls == "ProductV"):
+            raise Unsupported("gen_term_orders: the result is not a filtered itertools.product")
+        ip, prod = vc.ip, result.iterable
+        si = make_symiter(ip, prod)
+        gen = result.node.generators[0]
+
+        def at(k):
+            fr = Frame(result.frame.fkey, result.frame.module, parent=result.frame)
+            ip.assign_target(gen.target, si.item(ip, k), fr)
+            kept = zand(*[ip.truth_term(ip.eval(c, fr)) for c in gen.ifs]) if gen.ifs else True
+            elt = ip.eval(result.node.elt, fr)
+            elt = tuple(elt.items) if isinstance(elt, PList) else elt
+            if not (isinstance(elt, tuple) and all(isinstance(x, (Sym, int)) for x in elt)):
+                raise Unsupported("gen_term_orders: element of the result is not a tuple of integers")
+            return term(kept) if not isinstance(kept, bool) else z3.BoolVal(kept), [term(x) for x in elt]
+
+        length = term(si.length())
+        out = []
+        # (1) soundness: every returned tuple is a composition of `order` into term_length parts >= min_order
+        k = vc.fresh_int("pos")
+        kept, parts = at(Sym(k))
+        in_rng = z3.And(k >= 0, k < length)
+        is_comp = z3.And(len(parts) == L, *[p >= m for p in parts], sum(parts, z3.IntVal(0)) == n)
+        out.append(("every-returned-tuple-has-term_length-parts-not-below-min_order-that-sum-to-order",
+                    z3.Implies(z3.And(in_rng, kept), is_comp)))
+        # (2) completeness: every such composition is returned (witness: its position in the product)
+        xs = [vc.fresh_int(f"part{j}") for j in range(L)]
+        hyp = z3.And(*[x >= m for x in xs], sum(xs, z3.IntVal(0)) == n)
+        digits = [x - m for x in xs]
+        pos = _product_position(vc, prod, digits)
+        kept2, parts2 = at(Sym(pos))
+        out.append(("every-composition-of-order-into-term_length-parts-not-below-min_order-is-returned",
+                    z3.Implies(hyp, z3.And(pos >= 0, pos < length, kept2, len(parts2) == L,
+                                           *[p == x for p, x in zip(parts2, xs)]))))
+        # (3) no tuple twice, tuples in lexicographic order (the order the callers' view for
+        #     term_length 2 states): positions k < k2 of the product hold tuples t(k) <lex t(k2)
+        k2 = vc.fresh_int("pos2")
+        _kept3, parts3 = at(Sym(k2))
+        lex = z3.BoolVal(False)
+        for p, q in reversed(list(zip(parts, parts3))):
+            lex = z3.Or(p < q, z3.And(p == q, lex))
+        _product_order_axiom(vc, prod, k, k2)
+        out.append(("tuples-are-returned-in-strictly-increasing-lexicographic-order",
+                    z3.Implies(z3.And(in_rng, k2 >= 0, k2 < length, k < k2), lex)))
+        return out
+
+    def _orders_generator(ip, frame, node):
+        """(o for o in <iterable>) stored in a variable: Python evaluates it lazily, when
+        `product` consumes it.  Eager evaluation is the same if (checked here on the AST of the
+        real function) it is the identity comprehension without filter, no name it reads is
+        re-bound anywhere in the function, and the variable it is stored in is read exactly once."""
+        g = node.generators
+        if len(g) != 1 or g[0].ifs or g[0].is_async or not isinstance(node.elt, ast.Name) or \
+                not isinstance(g[0].target, ast.Name) or node.elt.id != g[0].target.id:
+            raise Unsupported("generator expression is not the identity over its iterable")
+        fn = ip.src.get(GenTermOrders.key)
+        reads = {x.id for x in ast.walk(g[0].iter) if isinstance(x, ast.Name)}
+        stores = [x.id for x in ast.walk(fn) if isinstance(x, ast.Name) and isinstance(x.ctx, (ast.Store, ast.Del))]
+        holder = [st.targets[0].id for st in ast.walk(fn) if isinstance(st, ast.Assign) and st.value is node
+                  and len(st.targets) == 1 and isinstance(st.targets[0], ast.Name)]
+        if not holder or any(r in stores for r in reads) or stores.count(holder[0]) != 1:
+            raise Unsupported("lazily evaluated generator expression reads a name that is re-bound")
+        loads = [x for x in ast.walk(fn) if isinstance(x, ast.Name) and x.id == holder[0] and isinstance(x.ctx, ast.Load)]
+        if len(loads) != 1:
+            raise Unsupported("generator object is consumed more than once")
+        return ip.eval(g[0].iter, frame)
+    _orders_generator.handles_lazy = True
+    comprehensions = {" for o in ": _orders_generator}
 
 
-TUPLE_SUM = z3.Function("tuple_sum", z3.ArraySort(z3.IntSort(), z3.IntSort()), z3.IntSort(), z3.IntSort())
-
-
+# itertools.product(seq, repeat=L) for a symbolic sequence `seq` and a concrete L (language
+# semantics, assumed): position k holds (seq[D_0(k)], ..., seq[D_{L-1}(k)]) with digits
+# 0 <= D_j(k) < len(seq); every digit vector occurs at exactly one position POS(d_0..d_{L-1});
+# positions are ordered lexicographically by their digits.  The axioms are instantiated at the
+# positions the obligations talk about (no quantifiers reach the solver).
 def model_product(ip, args, kwargs):
-    """itertools.product(iterable, repeat=L): all L-tuples over the iterable in
-    lexicographic order, each exactly once (language semantics, assumed)"""
-    it = args[0]
-    if not (isinstance(it, Struct) and it.cls == "IntRange"):
-        if not kwargs:
-            # concrete iterables: the cartesian product in lexicographic order
-            import itertools
-            lists = [ip.iterate_concrete(x) for x in args]
-            return PList([tuple(c) for c in itertools.product(*lists)])
-        raise Unsupported("product over a non range")
-    return Struct("Product", lo=it.f["lo"], hi=it.f["hi"], repeat=term(kwargs["repeat"]))
+    if len(args) == 1 and isinstance(args[0], SymSeq) and set(kwargs) == {"repeat"} and \
+            isinstance(kwargs["repeat"], int) and not isinstance(kwargs["repeat"], bool):
+        L = kwargs["repeat"]
+        vc = ip.vc
+        tag = len(vc.ghost.setdefault("_products", []))
+        digit = [z3.Function(f"product{tag}_digit{j}", z3.IntSort(), z3.IntSort()) for j in range(L)]
+        posf = z3.Function(f"product{tag}_position", *([z3.IntSort()] * L), z3.IntSort()) if L else None
+        length = vc.fresh_int(f"product{tag}_length")
+        n = term(args[0].len)
+        vc.assume(length >= 0)
+        if L == 0:
+            vc.assume(length == 1)            # product(repeat=0) yields the empty tuple once
+        else:
+            vc.assume(z3.Implies(n <= 0, length == 0))
+        p = Struct("ProductV", seq=args[0], repeat=L, digit=digit, pos=posf, length=length)
+        vc.ghost["_products"].append(p)
+        return p
+    if not kwargs and all(not isinstance(x, (SymSeq, Struct)) for x in args):
+        # concrete iterables: the cartesian product in lexicographic order
+        import itertools
+        lists = [ip.iterate_concrete(x) for x in args]
+        return PList([tuple(c) for c in itertools.product(*lists)])
+    raise Unsupported("itertools.product: only product(<symbolic sequence>, repeat=<constant>) and "
+                      "products of concrete iterables are modelled")
+
+
+def _product_symiter(ip, p):
+    from pyvc.builtins import SymIter, seq_get
+
+    def item(ip_, k):
+        kt, f = term(k), p.f
+        ds = [d(kt) for d in f["digit"]]
+        n = term(f["seq"].len)
+        inst = [z3.And(d >= 0, d < n) for d in ds]
+        if f["pos"] is not None:
+            inst.append(f["pos"](*ds) == kt)
+        ip_.vc.assume(z3.Implies(z3.And(kt >= 0, kt < f["length"]), z3.And(*inst)) if inst else z3.BoolVal(True))
+        return tuple(seq_get(ip_, f["seq"], Sym(d)) for d in ds)
+    return SymIter("product", p, Sym(p.f["length"]), item)
+
+
+def _product_position(vc, p, digits):
+    """position of the tuple with the given digits (instance of the assumed contract of product)"""
+    f = p.f
+    if f["pos"] is None:
+        return z3.IntVal(0)
+    n = term(f["seq"].len)
+    pos = f["pos"](*digits)
+    vc.assume(z3.Implies(z3.And(*[z3.And(d >= 0, d < n) for d in digits]),
+                         z3.And(pos >= 0, pos < f["length"], *[dj(pos) == d for dj, d in zip(f["digit"], digits)])))
+    return pos
+
+
+def _product_order_axiom(vc, p, k, k2):
+    f = p.f
+    lex = z3.BoolVal(False)
+    for dj in reversed(f["digit"]):
+        lex = z3.Or(dj(k) < dj(k2), z3.And(dj(k) == dj(k2), lex))
+    vc.assume(z3.Implies(z3.And(k >= 0, k2 >= 0, k < f["length"], k2 < f["length"]), (k < k2) == lex))
 
 
 C.EXTERNALS["itertools.product"] = model_product
